@@ -1,5 +1,6 @@
 """C09 -- POD clock-drift correction shifts time and position consistently, exactly once."""
 import datetime
+import os
 import math
 import warnings
 from fractions import Fraction
@@ -233,7 +234,10 @@ def truth_positions(reader, times_us, positions):
         warnings.simplefilter("ignore")
         sgeom = avhrr_gac(ts.astype(datetime.datetime), np.asarray(positions, dtype=float), frequency=0.5)
         s_times = sgeom.times(ts[0].astype(datetime.datetime))
-        pix = compute_pixels(reader.get_tle_lines(), sgeom, s_times, reader.get_attitude_coeffs())
+        # the element set: nearest epoch to the FIRST line's time, found by brute force in the reader's TLE file
+        first_ms = int(np.asarray(reader.get_times()[0], dtype="datetime64[ms]").astype("int64"))
+        tle_path = os.path.join(reader.tle_dir, reader.tle_name % {"satname": reader.spacecraft_name})
+        pix = compute_pixels(impl.nearest_tle(tle_path, first_ms), sgeom, s_times, reader.get_attitude_coeffs())
         lon, lat = get_lonlatalt(pix, s_times)[:2]
     lon = lon.reshape(-1, len(positions))
     lat = lat.reshape(-1, len(positions))
